@@ -122,81 +122,62 @@ theorem notLogic_of_name {t : Tok} (h : isName t.text = true) : isLogicKw t = fa
   obtain ⟨_, _, _, _, h1, h2, h3⟩ := isName_spec h
   simp [isLogicKw, isKw, h1, h2, h3]
 
-/-- phrases of `atomic_condition` and tighter do not start with `not` / `forall` / `exists`; atomic values and references do
-    not start with `-` or `(` -/
-theorem renders_head {k : Nat} {e : Raw} {ts : List Tok} (h : Renders k e ts) : 4 ≤ k →
-    ∃ t ts', ts = t :: ts' ∧ isLogicKw t = false ∧ (9 ≤ k → k ≤ 10 → isSym t "-" = false ∧ isSym t "(" = false) := by
+theorem isNameTok_spec {t : Tok} (h : isNameTok t = true) :
+    isCName t.text = true ∧ t.text ≠ "True" ∧ t.text ≠ "False" ∧ (!t.afterWord && (numberConstant t.text).isSome) = false := by
+  simp only [isNameTok, Bool.and_eq_true, bne_iff_ne, ne_eq, Bool.not_eq_true'] at h
+  exact ⟨h.1.1.1, h.1.1.2, h.1.2, h.2⟩
+
+theorem isNameTok_of_isName {t : Tok} (h : isName t.text = true) : isNameTok t = true := by
+  obtain ⟨hc, ht, hf, hn, _⟩ := isName_spec h
+  simp [isNameTok, hc, ht, hf, hn]
+
+/-- atomic values and references do not start with `-` or `(` -/
+theorem renders_head {k : Nat} {e : Raw} {ts : List Tok} (h : Renders k e ts) : 9 ≤ k → k ≤ 10 →
+    ∃ t ts', ts = t :: ts' ∧ isSym t "-" = false ∧ isSym t "(" = false := by
   induction h with
-  | up hk _ ih =>
-    intro h4
-    obtain ⟨t, ts', rfl, h1, _⟩ := ih (by omega)
-    exact ⟨t, ts', rfl, h1, fun h9 => by omega⟩
-  | binL t hl _ _ _ iha _ =>
-    intro h4
-    obtain ⟨t0, ts', rfl, h1, _⟩ := iha h4
-    refine ⟨t0, _, rfl, h1, fun h9 _ => ?_⟩
-    simp [isLoopLevel] at hl; omega
-  | rel t _ _ _ iha _ =>
-    intro _
-    obtain ⟨t0, ts', rfl, h1, _⟩ := iha (by omega)
-    exact ⟨t0, _, rfl, h1, fun h9 => by omega⟩
-  | not t _ _ _ => intro h4; omega
-  | quant t v kin c _ _ _ _ _ _ _ _ _ => intro h4; omega
-  | neg t ht _ _ => intro _; exact ⟨t, _, rfl, notLogic_of_sym ht, fun h9 => by omega⟩
-  | paren o c ho _ _ _ => intro _; exact ⟨o, _, rfl, notLogic_of_sym ho, fun h9 => by omega⟩
-  | str t hk => intro _; exact ⟨t, [], rfl, notLogic_of_kind (by rw [hk]; decide), fun _ _ => ⟨notSym_of_kind (by rw [hk]; decide) _, notSym_of_kind (by rw [hk]; decide) _⟩⟩
-  | num t v hk _ => intro _; exact ⟨t, [], rfl, notLogic_of_kind (by rw [hk]; decide), fun _ _ => ⟨notSym_of_kind (by rw [hk]; decide) _, notSym_of_kind (by rw [hk]; decide) _⟩⟩
-  | true_ t hk ht =>
-    intro _
-    exact ⟨t, [], rfl, by simp [isLogicKw, isKw, ht], fun _ _ => ⟨notSym_of_kind (by rw [hk]; decide) _, notSym_of_kind (by rw [hk]; decide) _⟩⟩
-  | false_ t hk ht =>
-    intro _
-    exact ⟨t, [], rfl, by simp [isLogicKw, isKw, ht], fun _ _ => ⟨notSym_of_kind (by rw [hk]; decide) _, notSym_of_kind (by rw [hk]; decide) _⟩⟩
-  | const t v hk _ hc =>
-    intro _
-    have : isLogicKw t = false := by
-      have := numberConstant_some (by rw [hc]; rfl : (numberConstant t.text).isSome = true)
-      rcases this with h | h | h | h <;> simp [isLogicKw, isKw, h]
-    exact ⟨t, [], rfl, this, fun _ _ => ⟨notSym_of_kind (by rw [hk]; decide) _, notSym_of_kind (by rw [hk]; decide) _⟩⟩
-  | call f o c hk hn _ _ _ _ =>
-    intro _
-    exact ⟨f, _, rfl, notLogic_of_name hn, fun _ _ => ⟨notSym_of_kind (by rw [hk]; decide) _, notSym_of_kind (by rw [hk]; decide) _⟩⟩
+  | up hk _ _ _ => intro h9; omega
+  | binL t hl _ _ _ _ _ => intro h9; simp [isLoopLevel] at hl; omega
+  | rel t _ _ _ _ _ => intro h9; omega
+  | not t _ _ _ => intro h9; omega
+  | quant t v kin c _ _ _ _ _ _ _ _ _ => intro h9; omega
+  | neg t ht _ _ => intro h9; omega
+  | paren o c ho _ _ _ => intro h9; omega
+  | str t hk => intro _ _; exact ⟨t, [], rfl, notSym_of_kind (by rw [hk]; decide) _, notSym_of_kind (by rw [hk]; decide) _⟩
+  | num t v hk _ => intro _ _; exact ⟨t, [], rfl, notSym_of_kind (by rw [hk]; decide) _, notSym_of_kind (by rw [hk]; decide) _⟩
+  | true_ t hk ht => intro _ _; exact ⟨t, [], rfl, notSym_of_kind (by rw [hk]; decide) _, notSym_of_kind (by rw [hk]; decide) _⟩
+  | false_ t hk ht => intro _ _; exact ⟨t, [], rfl, notSym_of_kind (by rw [hk]; decide) _, notSym_of_kind (by rw [hk]; decide) _⟩
+  | const t v hk _ hc => intro _ _; exact ⟨t, [], rfl, notSym_of_kind (by rw [hk]; decide) _, notSym_of_kind (by rw [hk]; decide) _⟩
+  | call f o c hk hn _ _ _ _ => intro _ _; exact ⟨f, _, rfl, notSym_of_kind (by rw [hk]; decide) _, notSym_of_kind (by rw [hk]; decide) _⟩
   | range o kto c ho _ _ _ _ _ _ =>
-    intro _
+    intro _ _
     have hk : o.kind = .sym ∧ (o.text = "[" ∨ o.text = "![") := by
       simp only [isSym, Bool.or_eq_true, Bool.and_eq_true, beq_iff_eq] at ho
       rcases ho with h | h
       · exact ⟨h.1, Or.inl h.2⟩
       · exact ⟨h.1, Or.inr h.2⟩
-    refine ⟨o, _, rfl, notLogic_of_kind (by rw [hk.1]; decide), fun _ _ => ?_⟩
+    refine ⟨o, _, rfl, ?_⟩
     rcases hk.2 with h | h <;> simp [isSym, h]
-  | setOne _ ih =>
-    intro _
-    obtain ⟨t, ts', rfl, h1, _⟩ := ih (by omega)
-    exact ⟨t, ts', rfl, h1, fun h9 h10 => by omega⟩
-  | setMore c _ _ _ ihs _ =>
-    intro _
-    obtain ⟨t, ts', rfl, h1, _⟩ := ihs (by omega)
-    exact ⟨t, _, rfl, h1, fun h9 h10 => by omega⟩
+  | setOne _ _ => intro _ h10; omega
+  | setMore c _ _ _ _ _ => intro _ h10; omega
   | set o c ho _ _ _ =>
-    intro _
+    intro _ _
     have hk : o.kind = .sym ∧ o.text = "{" := by simpa [isSym] using ho
-    refine ⟨o, _, rfl, notLogic_of_kind (by rw [hk.1]; decide), fun _ _ => ?_⟩
+    refine ⟨o, _, rfl, ?_⟩
     simp [isSym, hk.2]
-  | var t hk => intro _; exact ⟨t, [], rfl, notLogic_of_kind (by rw [hk]; decide), fun _ _ => ⟨notSym_of_kind (by rw [hk]; decide) _, notSym_of_kind (by rw [hk]; decide) _⟩⟩
-  | own t hk hn => intro _; exact ⟨t, [], rfl, notLogic_of_name hn, fun _ _ => ⟨notSym_of_kind (by rw [hk]; decide) _, notSym_of_kind (by rw [hk]; decide) _⟩⟩
+  | var t hk => intro _ _; exact ⟨t, [], rfl, notSym_of_kind (by rw [hk]; decide) _, notSym_of_kind (by rw [hk]; decide) _⟩
+  | own t hk hn => intro _ _; exact ⟨t, [], rfl, notSym_of_kind (by rw [hk]; decide) _, notSym_of_kind (by rw [hk]; decide) _⟩
   | field d n _ _ _ _ ih =>
-    intro _
-    obtain ⟨t, ts', rfl, h1, h2⟩ := ih (by omega)
-    exact ⟨t, _, rfl, h1, fun _ _ => h2 (by omega) (by omega)⟩
+    intro _ _
+    obtain ⟨t, ts', rfl, h2⟩ := ih (by omega) (by omega)
+    exact ⟨t, _, rfl, h2⟩
   | index o c _ _ _ _ iha _ =>
-    intro _
-    obtain ⟨t, ts', rfl, h1, h2⟩ := iha (by omega)
-    exact ⟨t, _, rfl, h1, fun _ _ => h2 (by omega) (by omega)⟩
+    intro _ _
+    obtain ⟨t, ts', rfl, h2⟩ := iha (by omega) (by omega)
+    exact ⟨t, _, rfl, h2⟩
   | ref _ ih =>
-    intro _
-    obtain ⟨t, ts', rfl, h1, h2⟩ := ih (by omega)
-    exact ⟨t, _, rfl, h1, fun _ _ => h2 (by omega) (by omega)⟩
+    intro _ _
+    obtain ⟨t, ts', rfl, h2⟩ := ih (by omega) (by omega)
+    exact ⟨t, _, rfl, h2⟩
 
 /-! ## token facts -/
 
@@ -361,7 +342,8 @@ theorem cps_plain {k : Nat} {e : Raw} {ts : List Tok} (h : CPS k e ts) (rest : L
 
 theorem exists_succ' {F n : Nat} (h : n + 1 ≤ F) : ∃ f, F = f + 1 ∧ n ≤ f := ⟨F - 1, by omega, by omega⟩
 
-theorem up_cps {k : Nat} {e : Raw} {ts : List Tok} (hk : k < 9) (hr : Renders (k + 1) e ts) (ih : CPS (k + 1) e ts) : CPS k e ts := by
+theorem up_cps {k : Nat} {e : Raw} {ts : List Tok} (hk : k < 9) (hh : k = 3 → ∀ t ts', ts = t :: ts' → isLogicKw t = false)
+    (hne : ts ≠ []) (hr : Renders (k + 1) e ts) (ih : CPS (k + 1) e ts) : CPS k e ts := by
   intro rest r g0 hg hs hc F hF
   obtain ⟨f, rfl, hf⟩ := exists_succ' (n := g0 + 12 * ts.length + (10 - k) - 1) (show g0 + 12 * ts.length + (10 - k) - 1 + 1 ≤ F by omega)
   by_cases hl : isLoopLevel k = true
@@ -379,7 +361,11 @@ theorem up_cps {k : Nat} {e : Raw} {ts : List Tok} (hk : k < 9) (hr : Renders (k
       simp only [isLoopLevel, Bool.or_eq_false_iff, beq_eq_false_iff_ne, ne_eq] at hl'
       omega
     rcases hk3 with rfl | rfl | rfl
-    · obtain ⟨t, ts', rfl, hlog, _⟩ := renders_head hr (by omega)
+    · obtain ⟨t, ts', rfl⟩ : ∃ t ts', ts = t :: ts' := by
+        cases ts with
+        | nil => exact absurd rfl hne
+        | cons t ts' => exact ⟨t, ts', rfl⟩
+      have hlog := hh rfl t ts' rfl
       have h1 := cps_plain ih rest (stopsK_mono (by omega) hs) f (by omega)
       simp only [isLogicKw, Bool.or_eq_false_iff] at hlog
       simp only [pL, List.cons_append] at h1 ⊢
@@ -394,8 +380,7 @@ theorem up_cps {k : Nat} {e : Raw} {ts : List Tok} (hk : k < 9) (hr : Renders (k
         have hrel := (hs t ts' rfl).2.1 (Nat.le_refl _)
         simp only [relTest, Bool.or_eq_false_iff] at hrel
         simp only [hrel.1, hrel.2, Bool.false_eq_true, ↓reduceIte, pure, Except.pure]
-    · obtain ⟨t, ts', rfl, _, hsym⟩ := renders_head hr (by omega)
-      obtain ⟨h1', h2'⟩ := hsym (by omega) (by omega)
+    · obtain ⟨t, ts', rfl, h1', h2'⟩ := renders_head hr (by omega) (by omega)
       have h1 := cps_plain ih rest (stopsK_mono (by omega) hs) f (by omega)
       simp only [pL, List.cons_append] at h1 ⊢
       simp only [pExponent, h1', h2', Bool.false_eq_true, ↓reduceIte]
@@ -538,12 +523,12 @@ theorem const_cps (t : Tok) (v : LitVal) (hk : t.kind = .word) (ha : t.afterWord
       rcases numberConstant_some hsome with h | h | h | h <;> (rw [h]; decide)
     simp [pAtomicValue, hk, ha, hv, hc.1, hc.2.1, hc.2.2])
 
-theorem call_cps {a : Raw} {ta : List Tok} (f o c : Tok) (hk : f.kind = .word) (hn : isName f.text = true) (ho : isSym o "(" = true)
+theorem call_cps {a : Raw} {ta : List Tok} (f o c : Tok) (hk : f.kind = .word) (hn : isNameTok f = true) (ho : isSym o "(" = true)
     (hc' : isSym c ")" = true) (iha : CPS 5 a ta) : CPS 9 (.call f.text (.cons a .nil)) (f :: o :: (ta ++ [c])) := by
   intro rest r g0 hg _ hc F hF
   have hr := result_nonloop h9 hc
   subst hr
-  obtain ⟨hcn, ht, hfa, hnc, _⟩ := isName_spec hn
+  obtain ⟨hcn, ht, hfa, hnc⟩ := isNameTok_spec hn
   simp only [List.length_append, List.length_cons, List.length_nil] at hF
   obtain ⟨g, rfl, hg'⟩ := exists_succ' (n := 12 * ta.length + 37) (show 12 * ta.length + 37 + 1 ≤ F by omega)
   have h1 := cps_plain iha (c :: rest) (stopsK_cons (stopTok_sym hc' (by simp) 5) _) g (by omega)
@@ -668,9 +653,9 @@ theorem var_goal (t : Tok) (hk : t.kind = .var) : RefGoal (.var t.text) [t] := b
   have := hc f hf
   simp [pAtomicValue, hk, this]
 
-theorem own_goal (t : Tok) (hk : t.kind = .word) (hn : isName t.text = true) : RefGoal (.field .this t.text) [t] := by
+theorem own_goal (t : Tok) (hk : t.kind = .word) (hn : isNameTok t = true) : RefGoal (.field .this t.text) [t] := by
   intro rest r g0 hg hpar hc F hF
-  obtain ⟨hcn, ht, hfa, hnc, _⟩ := isName_spec hn
+  obtain ⟨hcn, ht, hfa, hnc⟩ := isNameTok_spec hn
   simp only [List.length_cons, List.length_nil] at hF
   obtain ⟨f, rfl, hf⟩ := exists_succ' (n := g0 + 1) (show g0 + 1 + 1 ≤ F by omega)
   have h1 := hc f (by omega)
@@ -732,11 +717,18 @@ theorem ref_cps {x : Raw} {ts : List Tok} (ih : RefGoal x ts) : CPS 9 x ts := by
 
 /-! ## the induction over derivations -/
 
+theorem renders_ne {k : Nat} {e : Raw} {ts : List Tok} (h : Renders k e ts) : ts ≠ [] := by
+  induction h with
+  | up _ _ _ ih => exact ih
+  | setOne _ ih => exact ih
+  | ref _ ih => exact ih
+  | _ => simp
+
 theorem renders_goal {k : Nat} {e : Raw} {ts : List Tok} (h : Renders k e ts) : Goal k e ts := by
   induction h with
-  | @up k e ts hk hr ih =>
+  | @up k e ts hk hh hr ih =>
     rw [goal_low (by omega)] at ih ⊢
-    exact up_cps hk hr ih
+    exact up_cps hk hh (renders_ne hr) hr ih
   | @binL k a b ta tb t hl ht _ _ iha ihb =>
     have hk7 : k ≤ 7 := by simp only [isLoopLevel, Bool.or_eq_true, beq_iff_eq] at hl; omega
     rw [goal_low (by omega)] at iha ihb ⊢
@@ -815,11 +807,32 @@ theorem parse_predicate_complete {e : Raw} {ts : List Tok} (h : Renders 0 e ts) 
 
 /-! ## non-vacuity: renderings with minimal and with redundant parentheses -/
 
-theorem upTo {e : Raw} {ts : List Tok} : ∀ (d k : Nat), k + d ≤ 9 → Renders (k + d) e ts → Renders k e ts
-  | 0, _, _, h => h
-  | d + 1, k, hk, h => .up (by omega) (upTo d (k + 1) (by omega) (by rw [Nat.add_assoc, Nat.add_comm 1 d]; exact h))
+/-- the first token is not one of the keywords that open a logic operand -/
+def HeadOk (ts : List Tok) : Prop := ∀ t ts', ts = t :: ts' → isLogicKw t = false
 
-theorem ownR (n : String) (hn : isName n = true) : Renders 9 (.field .this n) [wordT n] := .ref (.own (wordT n) rfl hn)
+theorem headOk_cons {t0 : Tok} (h : isLogicKw t0 = false) (rest : List Tok) : HeadOk (t0 :: rest) := by
+  intro t ts' he
+  cases he
+  exact h
+
+theorem HeadOk.append {ts : List Tok} (h : HeadOk ts) (hne : ts ≠ []) (more : List Tok) : HeadOk (ts ++ more) := by
+  cases ts with
+  | nil => exact absurd rfl hne
+  | cons t0 r => exact headOk_cons (h t0 r rfl) _
+
+macro "upside" : tactic =>
+  `(tactic| first | (intro h1 h2; exfalso; omega) | (intro _ _; assumption) | (intro _ _; apply headOk_cons; decide))
+
+/-- from a tighter level to a looser one; where the step into `_logic_expr` (level 3) is taken the phrase must not start with a logic keyword -/
+theorem upTo {e : Raw} {ts : List Tok} : ∀ (d k : Nat), k + d ≤ 9 → Renders (k + d) e ts →
+    (hh : k ≤ 3 → 3 < k + d → HeadOk ts := by upside) → Renders k e ts
+  | 0, _, _, h, _ => h
+  | d + 1, k, hk, h, hh => .up (by omega) (fun h3 => hh (by omega) (by omega))
+      (upTo d (k + 1) (by omega) (by rw [Nat.add_assoc, Nat.add_comm 1 d]; exact h) (fun h1 h2 => hh (by omega) (by omega)))
+
+theorem up8 {e : Raw} {ts : List Tok} (h : Renders 9 e ts) : Renders 8 e ts := .up (by omega) (fun h => by omega) h
+
+theorem ownR (n : String) (hn : isName n = true) : Renders 9 (.field .this n) [wordT n] := .ref (.own (wordT n) rfl (isNameTok_of_isName hn))
 
 /-- `a - b - c` is `(a - b) - c` -/
 example : parseExpressionToks [wordT "a", symT "-", wordT "b", symT "-", wordT "c"] =
@@ -936,22 +949,60 @@ theorem set_members_render (e : Raw) (es : RawList) (hall : ∀ x ∈ (RawList.c
   rw [toksSep_cons]
   simpa [rawAppend] using this
 
+/-- the printed form of a printable tree never starts with `not` / `forall` / `exists` (operators and quantifiers are parenthesised,
+    own fields are not named so) -/
+theorem printed_headOk (x : Raw) (hp : x.printable = true) (more : List Tok) : HeadOk (x.toks ++ more) := by
+  have sym : ∀ (s : String) (rest : List Tok), HeadOk (symT s :: rest) := fun s rest =>
+    headOk_cons (by simp [isLogicKw, isKw, symT, mkTok]) rest
+  cases x with
+  | lit tok v => exact headOk_cons (litTok_notLogic (by simpa [Raw.printable] using hp)) _
+  | this => simp [Raw.printable] at hp
+  | var v => exact headOk_cons (by simp [isLogicKw, isKw, mkTok]) _
+  | set vs => simp only [Raw.toks, List.append_assoc, List.cons_append, List.nil_append]; exact sym _ _
+  | range lo hi a b => simp only [Raw.toks, List.append_assoc, List.cons_append, List.nil_append]; exact sym _ _
+  | quant q v d b => simp only [Raw.toks, List.append_assoc, List.cons_append, List.nil_append]; exact sym _ _
+  | un op a => simp only [Raw.toks, List.append_assoc, List.cons_append, List.nil_append]; exact sym _ _
+  | bin op a b => simp only [Raw.toks, List.append_assoc, List.cons_append, List.nil_append]; exact sym _ _
+  | call f args =>
+    have hf : isName f = true := by
+      match args, hp with
+      | .nil, hp => simp [Raw.printable] at hp
+      | .cons a .nil, hp => simp only [Raw.printable, Bool.and_eq_true] at hp; exact hp.1
+      | .cons _ (.cons _ _), hp => simp [Raw.printable] at hp
+    simp only [Raw.toks, List.append_assoc, List.cons_append, List.nil_append]
+    exact headOk_cons (word_not_logicKw hf) _
+  | field m n =>
+    have hr : (Raw.field m n).isRef = true := by
+      cases m <;> simp_all [Raw.printable, Raw.isRef]
+    obtain ⟨t, ts, h1, _, h3⟩ := ref_head _ hr hp
+    rw [h1]; exact headOk_cons h3 _
+  | index a i =>
+    have hr : (Raw.index a i).isRef = true := by
+      simp only [Raw.printable, Bool.and_eq_true] at hp
+      simpa [Raw.isRef] using hp.1.1
+    obtain ⟨t, ts, h1, _, h3⟩ := ref_head _ hr hp
+    rw [h1]; exact headOk_cons h3 _
+
+theorem printed_headOk' (x : Raw) (hp : x.printable = true) : HeadOk x.toks := by
+  have := printed_headOk x hp []
+  simpa using this
+
 mutual
 /-- every printable tree renders as its printed form: as an `_exponent`, and as an atomic value / a reference when it is one -/
 theorem printed_renders : ∀ (x : Raw), x.printable = true →
     Renders 8 x x.toks ∧ (x.isAtomic = true → Renders 9 x x.toks) ∧ (x.isRef = true → Renders 10 x x.toks)
   | .lit tok v, hp => by
       have := litTok_renders (by simpa [Raw.printable] using hp : litOk tok v = true)
-      exact ⟨.up (by omega) this, fun _ => this, fun h => by simp [Raw.isRef] at h⟩
+      exact ⟨up8 this, fun _ => this, fun h => by simp [Raw.isRef] at h⟩
   | .this, hp => by simp [Raw.printable] at hp
   | .var v, _ => by
       have h10 : Renders 10 (.var v) [mkTok .var v] := .var (mkTok .var v) rfl
-      exact ⟨.up (by omega) (.ref h10), fun _ => .ref h10, fun _ => h10⟩
+      exact ⟨up8 (.ref h10), fun _ => .ref h10, fun _ => h10⟩
   | .field m n, hp => by
       have h10 : Renders 10 (.field m n) (Raw.field m n).toks := by
         by_cases hm : m = .this
         · subst hm
-          exact .own (wordT n) rfl (printable_own hp)
+          exact .own (wordT n) rfl (isNameTok_of_isName (printable_own hp))
         · have hmr : m.isRef = true := by cases m <;> simp_all [Raw.printable]
           obtain ⟨hn, hpm⟩ := printable_field hmr hp
           rw [toks_field n hmr]
@@ -961,13 +1012,13 @@ theorem printed_renders : ∀ (x : Raw), x.printable = true →
         · subst hm; rfl
         · have hmr : m.isRef = true := by cases m <;> simp_all [Raw.printable]
           cases m <;> simp_all [Raw.isAtomic, Raw.isRef]
-      exact ⟨.up (by omega) (.ref h10), fun _ => .ref h10, fun _ => h10⟩
+      exact ⟨up8 (.ref h10), fun _ => .ref h10, fun _ => h10⟩
   | .index a i, hp => by
       obtain ⟨ha, hpa, hpi⟩ := printable_index hp
       have h10 : Renders 10 (.index a i) (Raw.index a i).toks := by
         simp only [Raw.toks, List.append_assoc, List.cons_append, List.nil_append]
         exact .index (symT "[") (symT "]") (by decide) (by decide) ((printed_renders a hpa).2.2 ha) (upTo 3 5 (by omega) (printed_renders i hpi).1)
-      exact ⟨.up (by omega) (.ref h10), fun _ => .ref h10, fun _ => h10⟩
+      exact ⟨up8 (.ref h10), fun _ => .ref h10, fun _ => h10⟩
   | .set .nil, hp => by simp [Raw.printable] at hp
   | .set (.cons e es), hp => by
       have hpl : (RawList.cons e es).printable = true := by simpa [Raw.printable] using hp
@@ -975,7 +1026,7 @@ theorem printed_renders : ∀ (x : Raw), x.printable = true →
       have h9 : Renders 9 (.set (.cons e es)) (Raw.set (.cons e es)).toks := by
         simp only [Raw.toks, List.append_assoc, List.cons_append, List.nil_append]
         exact .set (symT "{") (symT "}") (by decide) (by decide) h11
-      exact ⟨.up (by omega) h9, fun _ => h9, fun h => by simp [Raw.isRef] at h⟩
+      exact ⟨up8 h9, fun _ => h9, fun h => by simp [Raw.isRef] at h⟩
   | .range lo hi exLo exHi, hp => by
       simp only [Raw.printable, Bool.and_eq_true] at hp
       have hl := upTo 3 5 (by omega) (printed_renders lo hp.1).1
@@ -985,14 +1036,14 @@ theorem printed_renders : ∀ (x : Raw), x.printable = true →
         have := Renders.range (symT (if exLo then "![" else "[")) (wordT "to") (symT (if exHi then "]!" else "]"))
           (by cases exLo <;> decide) (by decide) (by cases exHi <;> decide) hl hh
         cases exLo <;> cases exHi <;> simpa [symT, mkTok] using this
-      exact ⟨.up (by omega) h9, fun _ => h9, fun h => by simp [Raw.isRef] at h⟩
+      exact ⟨up8 h9, fun _ => h9, fun h => by simp [Raw.isRef] at h⟩
   | .call f (.cons a .nil), hp => by
       simp only [Raw.printable, Bool.and_eq_true] at hp
       have ha := upTo 3 5 (by omega) (printed_renders a hp.2).1
       have h9 : Renders 9 (.call f (.cons a .nil)) (Raw.call f (.cons a .nil)).toks := by
         simp only [Raw.toks, RawList.toksSep, List.append_assoc, List.cons_append, List.nil_append]
-        exact .call (wordT f) (symT "(") (symT ")") rfl hp.1 (by decide) (by decide) ha
-      exact ⟨.up (by omega) h9, fun _ => h9, fun h => by simp [Raw.isRef] at h⟩
+        exact .call (wordT f) (symT "(") (symT ")") rfl (isNameTok_of_isName hp.1) (by decide) (by decide) ha
+      exact ⟨up8 h9, fun _ => h9, fun h => by simp [Raw.isRef] at h⟩
   | .call f .nil, hp => by simp [Raw.printable] at hp
   | .call f (.cons _ (.cons _ _)), hp => by simp [Raw.printable] at hp
   | .un op a, hp => by
@@ -1001,7 +1052,7 @@ theorem printed_renders : ∀ (x : Raw), x.printable = true →
       have ha := (printed_renders a hpa).1
       refine ⟨?_, fun h => by simp [Raw.isAtomic, Raw.isRef] at h, fun h => by simp [Raw.isRef] at h⟩
       rcases hop with rfl | rfl
-      · have h3 : Renders 3 (.un "not" a) (wordT "not" :: a.toks) := .not (wordT "not") (by decide) (upTo 5 3 (by omega) ha)
+      · have h3 : Renders 3 (.un "not" a) (wordT "not" :: a.toks) := .not (wordT "not") (by decide) (upTo 5 3 (by omega) ha (fun _ _ => printed_headOk' a hpa))
         have := Renders.paren (symT "(") (symT ")") (by decide) (by decide) (upTo 3 0 (by omega) h3)
         simpa [Raw.toks] using this
       · have h8 : Renders 8 (.un "-" a) (symT "-" :: a.toks) := .neg (symT "-") (by decide) ha
@@ -1018,20 +1069,20 @@ theorem printed_renders : ∀ (x : Raw), x.printable = true →
       have inner : Renders 0 (.bin op a b) (a.toks ++ opTok op :: b.toks) := by
         rcases hcase with ⟨hl, ht⟩ | ⟨rfl, ht⟩
         · have hj7 : j ≤ 7 := by simp only [isLoopLevel, Bool.or_eq_true, beq_iff_eq] at hl; omega
-          have := Renders.binL (opTok op) hl ht (upTo (8 - j) j (by omega) (by rw [show j + (8 - j) = 8 by omega]; exact ha))
-            (upTo (8 - (j + 1)) (j + 1) (by omega) (by rw [show j + 1 + (8 - (j + 1)) = 8 by omega]; exact hb))
+          have := Renders.binL (opTok op) hl ht (upTo (8 - j) j (by omega) (by rw [show j + (8 - j) = 8 by omega]; exact ha) (fun _ _ => printed_headOk' a hpa))
+            (upTo (8 - (j + 1)) (j + 1) (by omega) (by rw [show j + 1 + (8 - (j + 1)) = 8 by omega]; exact hb) (fun _ _ => printed_headOk' b hpb))
           rw [htext] at this
-          exact upTo j 0 (by omega) (by rw [Nat.zero_add]; exact this)
+          exact upTo j 0 (by omega) (by rw [Nat.zero_add]; exact this) (fun _ _ => printed_headOk a hpa _)
         · have := Renders.rel (opTok op) ht (upTo 3 5 (by omega) ha) (upTo 3 5 (by omega) hb)
           rw [htext] at this
-          exact upTo 4 0 (by omega) this
+          exact upTo 4 0 (by omega) this (fun _ _ => printed_headOk a hpa _)
       have := Renders.paren (symT "(") (symT ")") (by decide) (by decide) inner
       simpa [Raw.toks] using this
   | .quant q x d b, hp => by
       simp only [Raw.printable, Bool.and_eq_true] at hp
       obtain ⟨⟨⟨hx, hpd⟩, hda⟩, hpb⟩ := hp
       have hd := (printed_renders d hpd).2.1 hda
-      have hb := upTo 5 3 (by omega) (printed_renders b hpb).1
+      have hb := upTo 5 3 (by omega) (printed_renders b hpb).1 (fun _ _ => printed_headOk' b hpb)
       refine ⟨?_, fun h => by simp [Raw.isAtomic, Raw.isRef] at h, fun h => by simp [Raw.isRef] at h⟩
       cases q with
       | all =>
@@ -1065,7 +1116,7 @@ theorem renders_functional {e e' : Raw} {ts : List Tok} (h : Renders 0 e ts) (h'
 
 /-- the printed form of a printable tree is a `condition` of the grammar denoting that tree … -/
 theorem printed_is_rendering (x : Raw) (hp : x.printable = true) : Renders 0 x x.toks :=
-  upTo 8 0 (by omega) (printed_renders x hp).1
+  upTo 8 0 (by omega) (printed_renders x hp).1 (fun _ _ => printed_headOk' x hp)
 
 /-- … so the round trip of C06 (`parse_toks_roundtrip`) is an instance of `parse_complete` -/
 theorem roundtrip_from_completeness (x : Raw) (hp : x.printable = true) : parseExpressionToks x.toks = .ok x :=
